@@ -2362,6 +2362,12 @@ pub fn new_manager<
             let store = &*gc_mref.0;
             loop {
                 let mut lock = store.gc_signal.0.lock();
+                // The last `ManagerRef` may have been dropped while this
+                // thread was not waiting (just spawned or collecting): the
+                // notification is lost then, so check before waiting.
+                if *lock == GCSignal::Quit {
+                    break;
+                }
                 store.gc_signal.1.wait(&mut lock);
                 if *lock == GCSignal::Quit {
                     break;
